@@ -461,40 +461,405 @@ def serNames : List (String × Val) → List String
   | (n, _) :: fs => n :: serNames fs
 end
 
-/-! ### gluon types and `get_global` (thread.rs:850) -/
+/-! ### the serde bridge, other direction: `De` (vm/src/api/de.rs) composed with serde's `Deserialize`
+    impls and visitors.
+
+    `de c gl v`: deserialize the Rust type `c` from the gluon value `v` whose *gluon* type is the one of
+    the type code `gl` (the `typ` field of de.rs's `Deserializer`; initially `gl = c`, they drift apart
+    only where the code confuses variants, e.g. `Result`). -/
+
+inductive DeOut where
+  | ok (v : Val)
+  | err          -- `Err(VmError::Message …)` / a serde `invalid type|value|length` error
+  | crash        -- unbounded recursion deserialize_any ↔ deserialize_map (de.rs:298 ↔ :600): stack overflow
+  | unmodelled   -- a path the model does not describe (not reachable from pushed values of the family)
+  deriving Repr, Inhabited
+
+/-- the gluon type behind a type code, as `resolve::remove_aliases` shows it to de.rs -/
+inductive GK where
+  | int | byte | float | string | char
+  | arr (t : TCode)
+  | recd (fs : List (String × TCode))
+  | var (ctors : List (List TCode))
+
+def tupleFields : List TCode → Nat → List (String × TCode)
+  | [], _ => []
+  | t :: ts, i => ("_" ++ toString i, t) :: tupleFields ts (i + 1)
+
+def ctorArgs : TCode → List TCode
+  | .vtuple ts => ts
+  | .vstruct fs => [.struct fs]
+  | _ => []
+
+def glKind : TCode → GK
+  | .unit => .recd [] | .ustruct => .recd []
+  | .u8 => .byte | .int _ => .int | .f32 => .float | .f64 => .float
+  | .string => .string | .char => .char
+  | .bool => .var [[], []]
+  | .ordering => .var [[], [], []]
+  | .option t => .var [[], [t]]
+  | .result t e => .var [[e], [t]]                     -- | Err e | Ok t
+  | .vec t => .arr t
+  | .tuple ts => .recd (tupleFields ts 0)
+  | .tstruct ts => .recd (tupleFields ts 0)
+  | .map v => .var [[], [.string, v, .map v, .map v]]  -- | Tip | Bin k a (Map k a) (Map k a)
+  | .struct fs => .recd fs
+  | .newtype t => glKind t
+  | .enum _ vars => .var (vars.map ctorArgs)
+  | .vunit => .recd [] | .vtuple _ => .recd [] | .vstruct _ => .recd []
+
+def isRecK (gl : TCode) : Bool := match glKind gl with | .recd _ => true | _ => false
+
+/-- de.rs:482 `canonical_alias(… "std.types.Option")` -/
+def asOption : TCode → Option TCode
+  | .option t => some t
+  | .newtype t => asOption t
+  | _ => none
+
+/-- `deserialize_any` (de.rs:279) with a visitor that accepts none of the `visit_*` it can reach:
+    a `Data` value whose type is a record goes to `deserialize_enum` (→ `visit_enum`, rejected), a
+    `Data` value of any other type to `deserialize_map` → `deserialize_any` → … forever. -/
+def anyReject (gl : TCode) (v : GV) : DeOut :=
+  match tagOf v with
+  | some _ => if isRecK gl then .err else .crash
+  | none => .err
+
+/-- an integer visitor receiving `n` (serde: `visit_u8` / `visit_i64` with a checked conversion) -/
+def intVisit (t : Option IntTy) (n : Int) : DeOut :=
+  match t with
+  | none => if 0 ≤ n ∧ n ≤ 255 then .ok (.u8 n.toNat) else .err
+  | some t => if inRange t n then .ok (.int t n) else .err
+
+/-- `deserialize_u8/i16/…` (de.rs:326-404) for the integer types (`none` = u8) -/
+def deInt (t : Option IntTy) (gl : TCode) (v : GV) : DeOut :=
+  match v with
+  | .byte b => intVisit t b                       -- de.rs:331,341,371,381 or via any → deserialize_u8
+  | .int i => match t with
+    | some .i32 => .ok (.int .i32 (castTo .i32 i))      -- de.rs:351 `b as i32`
+    | some .u32 => .ok (.int .u32 (castTo .u32 i))      -- de.rs:391
+    | some .u64 => .ok (.int .u64 (castTo .u64 i))      -- de.rs:401
+    | some .usize => .ok (.int .usize (castTo .usize i))
+    | _ => intVisit t i                                 -- visit_i64, checked
+  | .float _ => .err
+  | .str _ => .err
+  | .array _ _ => .err
+  | _ => anyReject gl v
+
+def natToF64 (n : Nat) : Nat :=
+  if n = 0 then 0 else
+    let k := log2Fuel 64 n
+    (1023 + k) * 4503599627370496 + (n - 2 ^ k) * 2 ^ (52 - k)
+
+def natToF32 (n : Nat) : Nat :=
+  if n = 0 then 0 else
+    let k := log2Fuel 64 n
+    (127 + k) * 8388608 + (n - 2 ^ k) * 2 ^ (23 - k)
+
+def deFloat (is32 : Bool) (gl : TCode) (v : GV) : DeOut :=
+  match v with
+  | .float b => if is32 then .ok (.f32 (f64to32 b)) else .ok (.f64 b)   -- de.rs:411,421
+  | .byte n => if is32 then .ok (.f32 (natToF32 n)) else .ok (.f64 (natToF64 n))  -- any → visit_u8 (serde floats accept integers)
+  | .int _ => .unmodelled                                               -- `i as f64` rounding
+  | .str _ => .err
+  | .array _ _ => .err
+  | _ => anyReject gl v
+
+def deChar (gl : TCode) (v : GV) : DeOut :=
+  match v with
+  | .int i => match glKind gl with                                     -- de.rs:432
+    | .char => match charOfInt i with
+      | some c => .ok (.char c)
+      | none => .err
+    | _ => .err
+  | .str s => match s.toList with                                      -- any → visit_borrowed_str
+    | [c] => .ok (.char c.toNat)
+    | _ => .err
+  | .byte _ => .err
+  | .float _ => .err
+  | .array _ _ => .err
+  | _ => anyReject gl v
+
+def seqM (f : GV → DeOut) : List GV → List Val → DeOut
+  | [], acc => .ok (.vec acc.reverse)
+  | x :: xs, acc => match f x with
+    | .ok v => seqM f xs (v :: acc)
+    | .err => .err
+    | .crash => .crash
+    | .unmodelled => .unmodelled
+
+def zipM (f : TCode → GV → DeOut) : List GV → List TCode → List Val → DeOut
+  | x :: xs, a :: as, acc => match f a x with
+    | .ok v => zipM f xs as (v :: acc)
+    | .err => .err
+    | .crash => .crash
+    | .unmodelled => .unmodelled
+  | _, _, acc => .ok (.vec acc.reverse)
+
+def assocVal (n : String) : List (String × Val) → Option Val
+  | [] => none
+  | (m, v) :: rest => if m = n then some v else assocVal n rest
+
+/-- the derived struct visitor's epilogue: every declared field, in declaration order; a missing
+    `Option` field is `None`, any other missing field an error -/
+def assemble : List (String × TCode) → List (String × Val) → Option (List (String × Val))
+  | [], _ => some []
+  | (n, t) :: fs, got => match assemble fs got with
+    | none => none
+    | some rest => match assocVal n got with
+      | some v => some ((n, v) :: rest)
+      | none => match t with
+        | .option _ => some ((n, .none) :: rest)
+        | _ => none
+
+/-- de.rs:593-599 / :871-875: walk the fields of the *gluon* record type, `lookup_field` each, hand
+    (name, value) to the visitor; `f` deserializes a known field, `none` for an unknown name -/
+def mapLoop (f : String → TCode → GV → Option DeOut) (v : GV) :
+    List (String × TCode) → List (String × Val) → Option (List (String × Val)) ⊕ DeOut
+  | [], acc => .inl (some acc.reverse)
+  | (n, gt) :: rest, acc => match lookupField v n with
+    | none => mapLoop f v rest acc
+    | some x => match f n gt x with
+      | none => .inr .unmodelled
+      | some (.ok y) => mapLoop f v rest ((n, y) :: acc)
+      | some .err => .inr .err
+      | some .crash => .inr .crash
+      | some .unmodelled => .inr .unmodelled
 
 mutual
-/-- the gluon type `VmType::make_type` gives, as canonical text -/
-def typeStr : TCode → String
-  | .unit => "()" | .u8 => "Byte" | .int _ => "Int" | .f32 => "Float" | .f64 => "Float"
-  | .bool => "Bool" | .char => "Char" | .string => "String" | .ordering => "Ordering"
-  | .option t => "(Option " ++ typeStr t ++ ")"
-  | .result t e => "(Result " ++ typeStr e ++ " " ++ typeStr t ++ ")"
-  | .vec t => "(Array " ++ typeStr t ++ ")"
-  | .tuple ts => "{" ++ typeStrTs ts 0 ++ "}"
-  | .map v => "(Map String " ++ typeStr v ++ ")"
-  | .struct fs => "{" ++ typeStrFs fs ++ "}"
-  | .newtype t => typeStr t
-  | .tstruct ts => "{" ++ typeStrTs ts 0 ++ "}"
-  | .ustruct => "()"
-  | .enum n _ => n
-  | .vunit => "?" | .vtuple _ => "?" | .vstruct _ => "?"
-def typeStrTs : List TCode → Nat → String
-  | [], _ => ""
-  | t :: ts, i => "_" ++ toString i ++ ":" ++ typeStr t ++ "," ++ typeStrTs ts (i + 1)
-def typeStrFs : List (String × TCode) → String
-  | [] => ""
-  | (n, t) :: fs => n ++ ":" ++ typeStr t ++ "," ++ typeStrFs fs
+def de : TCode → TCode → GV → DeOut
+  | .unit, gl, v => match tagOf v with                                  -- de.rs:509
+    | some 0 => .ok .unit
+    | _ => anyReject gl v
+  | .ustruct, gl, v => match tagOf v with                               -- de.rs:519 → :509
+    | some 0 => .ok .ustruct
+    | _ => anyReject gl v
+  | .u8, gl, v => deInt none gl v
+  | .int t, gl, v => deInt (some t) gl v
+  | .f32, gl, v => deFloat true gl v
+  | .f64, gl, v => deFloat false gl v
+  | .bool, _, v => match tagOf v with                                   -- de.rs:314
+    | some t => .ok (.bool (t != 0))
+    | none => .err
+  | .char, gl, v => deChar gl v
+  | .string, gl, v => match glKind gl, v with                           -- de.rs:441 deserialize_builtin
+    | .string, .str s => .ok (.str s)
+    | _, _ => .err
+  | .ordering, _, _ => .unmodelled                                      -- no serde impls
+  | .option t, gl, v => match asOption gl with                          -- de.rs:478
+    | some t' => match tagOf v with
+      | some 0 => .ok .none
+      | some 1 => match (fieldsOf v)[0]? with
+        | none => .err
+        | some x => match de t t' x with
+          | .ok y => .ok (.some y)
+          | o => o
+      | _ => anyReject gl v
+    | none => match de t gl v with
+      | .ok y => .ok (.some y)
+      | o => o
+  | .result t e, gl, v => match tagOf v with                            -- serde Result: 0 ↦ Ok, 1 ↦ Err
+    | some 0 => match variantArg gl v 0 with                            --   (de.rs:742 visit_u32(tag))
+      | .inr o => o
+      | .inl (a, x) => match de t a x with
+        | .ok y => .ok (.ok y)
+        | o => o
+    | some 1 => match variantArg gl v 1 with
+      | .inr o => o
+      | .inl (a, x) => match de e a x with
+        | .ok y => .ok (.err y)
+        | o => o
+    | _ => .err
+  | .vec t, gl, v => match v, glKind gl with                            -- de.rs:542
+    | .array _ xs, .arr t' => seqM (fun x => de t t' x) xs []
+    | .array _ _, _ => .unmodelled
+    | v, .var ctors => match tagOf v with
+      | some tg => match ctors[tg]? with
+        | some args => zipM (fun a x => de t a x) (fieldsOf v) args []
+        | none => anyReject gl v
+      | none => .err
+    | v, _ => anyReject gl v
+  | .tuple ts, gl, v => match deSeq ts gl v with
+    | .inl vs => .ok (.tuple vs)
+    | .inr o => o
+  | .tstruct ts, gl, v => match deSeq ts gl v with
+    | .inl vs => .ok (.tstruct vs)
+    | .inr o => o
+  | .newtype t, gl, v => match de t gl v with                           -- de.rs:535
+    | .ok y => .ok (.newtype y)
+    | o => o
+  | .map _, gl, v => match tagOf v with                                 -- de.rs:587
+    | some _ => if isRecK gl then .unmodelled else .crash
+    | none => .err
+  | .struct fs, gl, v => match deStruct fs gl v with
+    | .inl vs => .ok (.struct vs)
+    | .inr o => o
+  | .enum _ vars, gl, v => match tagOf v with                           -- de.rs:616, :742
+    | none => .err
+    | some tg => match deVariant vars tg gl v tg with
+      | .inl p => .ok (.var tg p)
+      | .inr o => o
+  | .vunit, _, _ => .unmodelled
+  | .vtuple _, _, _ => .unmodelled
+  | .vstruct _, _, _ => .unmodelled
+/-- `deserialize_seq` (de.rs:542) with a visitor that wants exactly the elements `ts` -/
+def deSeq : List TCode → TCode → GV → List Val ⊕ DeOut
+  | ts, gl, v => match v, glKind gl with
+    | .array _ xs, .arr t' => deElems ts (xs.map (fun x => (x, t')))
+    | .array _ _, _ => .inr .unmodelled
+    | v, .var ctors => match tagOf v with
+      | some tg => match ctors[tg]? with
+        | some args => deElems ts ((fieldsOf v).zip args)
+        | none => .inr (anyReject gl v)
+      | none => .inr .err
+    | v, _ => .inr (anyReject gl v)       -- a record-typed value ends in `visit_enum`: rejected
+def deElems : List TCode → List (GV × TCode) → List Val ⊕ DeOut
+  | [], _ => .inl []
+  | _ :: _, [] => .inr .err                         -- invalid length
+  | t :: ts, (x, a) :: rest => match de t a x with
+    | .ok y => match deElems ts rest with
+      | .inl ys => .inl (y :: ys)
+      | .inr o => .inr o
+    | o => .inr o
+/-- `deserialize_struct` → `deserialize_map` (de.rs:587-602) with a derived struct visitor -/
+def deStruct : List (String × TCode) → TCode → GV → List (String × Val) ⊕ DeOut
+  | fs, gl, v => match tagOf v, glKind gl with
+    | some _, .recd gfs => match mapLoop (fun n gt x => deField fs n gt x) v gfs [] with
+      | .inr o => .inr o
+      | .inl none => .inr .err
+      | .inl (some got) => match assemble fs got with
+        | some vs => .inl vs
+        | none => .inr .err
+    | some _, _ => .inr .crash
+    | none, _ => match v with
+      | .array _ _ => .inr .unmodelled
+      | _ => .inr .err
+def deField : List (String × TCode) → String → TCode → GV → Option DeOut
+  | [], _, _, _ => none
+  | (m, t) :: fs, n, gt, x => if m = n then some (de t gt x) else deField fs n gt x
+/-- the variant with serde index `i` (counting down in `k`) of a derived enum; `tg` is the tag -/
+def deVariant : List TCode → Nat → TCode → GV → Nat → Val ⊕ DeOut
+  | [], _, _, _, _ => .inr .err                     -- invalid value: variant index
+  | c :: _, 0, gl, v, tg => match c with
+    | .vunit => .inl .vunit                                             -- de.rs:796 unit_variant
+    | .vtuple [t] => match variantArg gl v tg with                      -- de.rs:800 newtype_variant_seed
+      | .inr o => .inr o
+      | .inl (a, x) => match de t a x with
+        | .ok y => .inl (.vtuple [y])
+        | o => .inr o
+    | .vtuple ts => match deSeq ts gl v with                            -- de.rs:825 tuple_variant
+      | .inl vs => .inl (.vtuple vs)
+      | .inr o => .inr o
+    | .vstruct fs => match glKind gl with                               -- de.rs:832 struct_variant
+      | .var ctors => match ctors[tg]? with
+        | none => .inr .err
+        | some args => match args.head?, (fieldsOf v)[0]? with
+          | some a, some inner => match tagOf inner with
+            | none => .inr .err
+            | some _ =>
+              let gfs := match glKind a with | .recd gfs => gfs | _ => []
+              match mapLoop (fun n gt x => deField fs n gt x) inner gfs [] with
+              | .inr o => .inr o
+              | .inl none => .inr .err
+              | .inl (some got) => match assemble fs got with
+                | some vs => .inl (.vstruct vs)
+                | none => .inr .err
+          | _, _ => .inr .err
+      | _ => .inr .err
+    | _ => .inr .unmodelled
+  | _ :: cs, k + 1, gl, v, tg => deVariant cs k gl v tg
+/-- de.rs:800-822 `newtype_variant_seed`: the gluon constructor with the value's tag, its first
+    argument type and the value's first field -/
+def variantArg : TCode → GV → Nat → (TCode × GV) ⊕ DeOut
+  | gl, v, _ => match glKind gl, tagOf v with
+    | .var ctors, some tg => match ctors[tg]? with
+      | some args => match (fieldsOf v)[0]?, args.head? with
+        | some x, some a => .inl (a, x)
+        | _, _ => .inr .err
+      | none => .inr .unmodelled
+    | _, _ => .inr .unmodelled
+end
+
+/-! ### gluon types and `get_global` (thread.rs:850, check/src/lib.rs:41 `check_signature`,
+    check/src/unify_type.rs `zip_match` / `do_zip_match`) -/
+
+inductive Builtin where
+  | int | byte | float | string | char
+  deriving DecidableEq, Repr, Inhabited
+
+/-- The gluon types `VmType::make_type` produces for the family: builtins, `Array t`
+    (`App(Builtin Array, [t])`), applications of a named alias (`std.types.Option/Result/Bool/Ordering`,
+    `std.map.Map`, the `vm_type` enums), closed records (unit is the empty record, a tuple the record
+    `_0 … _n`). -/
+inductive GType where
+  | builtin (b : Builtin)
+  | array (t : GType)
+  | alias (name : String) (args : List GType)
+  | record (fs : List (String × GType))
+  deriving Repr, Inhabited
+
+mutual
+/-- `VmType::make_type` (api/mod.rs impls; codegen/src/vm_type.rs for the derives) -/
+def gtypeOf : TCode → GType
+  | .unit => .record []                                   -- type_cache.unit()
+  | .u8 => .builtin .byte
+  | .int _ => .builtin .int                               -- api/mod.rs:858 `type Type = VmInt`
+  | .f32 => .builtin .float                               -- vm.rs:596
+  | .f64 => .builtin .float
+  | .bool => .alias "std.types.Bool" []                   -- api/mod.rs:930
+  | .char => .builtin .char
+  | .string => .builtin .string
+  | .ordering => .alias "std.types.Ordering" []           -- :959
+  | .option t => .alias "std.types.Option" [gtypeOf t]    -- :1354
+  | .result t e => .alias "std.types.Result" [gtypeOf e, gtypeOf t]   -- :1404 (error type first)
+  | .vec t => .array (gtypeOf t)                          -- :1193
+  | .tuple ts => .record (gtypeTs ts 0)                   -- :1643
+  | .map v => .alias "std.map.Map" [.builtin .string, gtypeOf v]     -- :1263
+  | .struct fs => .record (gtypeFs fs)                    -- vm_type.rs:68-84
+  | .newtype t => gtypeOf t                               -- vm_type.rs:87-91
+  | .tstruct ts => .record (gtypeTs ts 0)                 -- vm_type.rs:93-98
+  | .ustruct => .record []                                -- vm_type.rs:101
+  | .enum n _ => .alias n []                              -- vm_type.rs:55-64 (`vm_type = "…"`)
+  | .vunit => .record [] | .vtuple _ => .record [] | .vstruct _ => .record []
+def gtypeTs : List TCode → Nat → List (String × GType)
+  | [], _ => []
+  | t :: ts, i => ("_" ++ toString i, gtypeOf t) :: gtypeTs ts (i + 1)
+def gtypeFs : List (String × TCode) → List (String × GType)
+  | [] => []
+  | (n, t) :: fs => (n, gtypeOf t) :: gtypeFs fs
+end
+
+mutual
+/-- `zip_match` on the monomorphic, first-order types of the family.
+    * builtins: equal or `TypeMismatch` (unify_type.rs fall-through arm);
+    * `App`/`App`: `unify_app` — heads, then arguments pairwise (:426); an alias head only matches the
+      same alias (`find_common_alias`; the bodies of different aliases of the family are variant types
+      with different constructors, so expanding them cannot make them match);
+    * closed records: fields are zipped **in order**, a differing name is `FieldMismatch`, a differing
+      length `MissingFields` (:500-560 "HACK For non polymorphic records we need to care about field order"). -/
+def unify : GType → GType → Bool
+  | .builtin a, .builtin b => a == b
+  | .array a, .array b => unify a b
+  | .alias n xs, .alias m ys => n == m && unifyL xs ys
+  | .record fs, .record gs => unifyF fs gs
+  | _, _ => false
+def unifyL : List GType → List GType → Bool
+  | [], [] => true
+  | x :: xs, y :: ys => unify x y && unifyL xs ys
+  | _, _ => false
+def unifyF : List (String × GType) → List (String × GType) → Bool
+  | [], [] => true
+  | (n, x) :: xs, (m, y) :: ys => n == m && unify x y && unifyF xs ys
+  | _, _ => false
 end
 
 inductive GlobalResult where
   | ok | wrongType
   deriving DecidableEq, Repr
 
-/-- thread.rs:862: `check_signature(expected, actual)`; on the first-order, monomorphic types of the
-    family subsumption is equality of the types (record fields in order). -/
+/-- thread.rs:856-866: `expected = T::make_type`, `check_signature(expected, actual)`, else
+    `Error::WrongType`. -/
 def getGlobal (requested actual : TCode) : GlobalResult :=
-  if typeStr requested = typeStr actual then .ok else .wrongType
+  if unify (gtypeOf requested) (gtypeOf actual) then .ok else .wrongType
 
 /-! ### rooting (thread.rs:237-251 `RootedValue::new`, :320-329 `unroot_`) -/
 
